@@ -27,7 +27,7 @@ func init() {
 		Run:   c10Run,
 		Kinds: []core.Kind{core.ReplayOf("quantile", c10Check)},
 		Rule: "every sequence (all orders, repeats) of length 1..n over {-1,0,2,7} and structured samples of 7..12, 50, 199, 200 values; q on -0.5..1.5 in steps of 1/48 plus every break point (k-1/3)/(n+1/3) +-0,1 ulp; " +
-			"both settings of Sorted on ascending data; weighted: every weight vector over {1,2,3} and over {0.5,1.25,2} with q hitting every cumulative weight exactly and +-1 ulp. Oracle: exact rational R8 on the exact value of the float q. Non-trivial: >=2 distinct values.",
+			"both settings of Sorted on ascending data; weighted: every weight vector over {1,2,3} and over {0.5,1.25,2} with q hitting every cumulative weight exactly and +-1 ulp. After the lattice each sample is rewritten in place (twice) and queried again. Oracle: exact rational R8 on the exact value of the float q. Non-trivial: >=2 distinct values.",
 		Technique: "bounded-exhaustive sequence x q-lattice enumeration of the real Sample.Quantile against an exact rational R8 model",
 		Assumptions: []string{
 			"tolerance 4 eps (n+1) (range + max|x|): the estimate is continuous in h, so a 1-ulp error in h near a break point is harmless",
@@ -138,6 +138,25 @@ func c10Check(c *C10Case, r *core.Rec) {
 	if !snap.same(xs) || s.Sorted {
 		r.Fail("modified", "Quantile/IQR modified the sample: %v", xs)
 	}
+	// history: the caller rewrites the values in place (same backing array, same
+	// length); the next query answers for the data now in the slice
+	for round := 0; round < 2; round++ {
+		for i := range xs {
+			xs[i] = 3*c.Xs[(i+1+round)%n] - float64(i%3) + float64(round)
+		}
+		now := append([]float64{}, xs...)
+		sort.Float64s(now)
+		lo2, hi2 := now[0], now[n-1]
+		tol2 := 4 * ref.Eps * float64(n+1) * ((hi2 - lo2) + math.Max(math.Abs(lo2), math.Abs(hi2)))
+		for _, q := range []float64{0, 0.1, 0.25, 0.5, 0.75, 1} {
+			got := s.Quantile(q)
+			r.Trans(1)
+			if want := c10R8(now, q); !r.Err("R8", ref.AbsDiff(got, want), tol2) {
+				r.Fail("rewritten-in-place", "xs=%v was queried, then rewritten in place to %v: Quantile(%v)=%v, exact R8 estimate %v", trunc(c.Xs), trunc(xs), q, got, ref.F(want))
+				return
+			}
+		}
+	}
 }
 
 func c10Weighted(c *C10Case, r *core.Rec) {
@@ -236,6 +255,21 @@ func c10Weighted(c *C10Case, r *core.Rec) {
 	}
 	if !sx.same(xs) || !sw.same(ws) || s.Sorted {
 		r.Fail("modified", "weighted Quantile modified the sample")
+	}
+	// history: values and weights rewritten in place (reversed values, rotated weights)
+	if n >= 2 {
+		for i := range xs {
+			xs[i] = c.Xs[n-1-i] + float64(i%2)
+			ws[i] = c.Weights[(i+1)%n]
+		}
+		fresh := stats.Sample{Xs: append([]float64{}, xs...), Weights: append([]float64{}, ws...)}
+		for _, q := range []float64{0, 0.2, 0.5, 0.8, 1} {
+			if got, want := s.Quantile(q), fresh.Quantile(q); !sameF(got, want) {
+				r.Fail("rewritten-in-place", "weighted sample rewritten in place to xs=%v weights=%v: Quantile(%v)=%v, a fresh Sample with the same data gives %v", trunc(xs), trunc(ws), q, got, want)
+				return
+			}
+			r.Trans(2)
+		}
 	}
 }
 
